@@ -22,7 +22,7 @@ EXPLANATION = (
     'whose loop iteration finished before the kill is listed, (C) a second run on the post-crash directory and manifest '
     'ends with exactly the files (same set, same value terms, including the RNG state rng(seed expression) actually '
     'passed to torch.manual_seed) of an uninterrupted run, and (D) listed utterances are neither re-read nor rewritten.')
-BOUNDS = {'quick': '1-4 utterances, 0-1 pre-processor (dither-like: consumes the RNG), with/without computer, every crash step, hard kill, soft interrupt and failing write (OSError raised by torch.save at the step), symbolic seed; utterance ids not in lexicographic order',
+BOUNDS = {'quick': '1-4 utterances, 0-1 pre-processor (dither-like: consumes the RNG), with/without computer, every crash step, hard kill, soft interrupt and failing write (OSError raised by torch.save at the step), symbolic seed; utterance ids not in lexicographic order; default file names and --file-prefix feat_ / --file-suffix .bin',
           'thorough': 'up to 5 utterances, 2 pre-processors, 2 post-processors'}
 OUTSIDE = ['real process kills and real multi-process DataLoader workers: order preservation is the DataLoader stub\'s contract, so independence of --num-workers is assumed, not shown',
            'file-system atomicity beyond the three-step write model', 'runs without --seed (a fresh random seed is drawn per run by design)']
